@@ -183,6 +183,8 @@ NUMS = [
     {'t': 'dec', 'v': '0.001'}, {'t': 'dec', 'v': '2.54'},
     {'t': 'dec', 'v': '0.3048'}, {'t': 'dec', 'v': '1.5'},
     {'t': 'dec', 'v': '0.000000001'}, {'t': 'dec', 'v': '1609.344'},
+    {'t': 'dec', 'v': '1609.3472'},
+    {'t': 'dec', 'v': '3.0000000000000000000000000000071'},
     {'t': 'frac', 'v': '1/3'}, {'t': 'frac', 'v': '7/5'},
     {'t': 'frac', 'v': '1/8'}, {'t': 'frac', 'v': '22/7'},
     {'t': 'float', 'v': '0.5'}, {'t': 'float', 'v': '0.25'},
@@ -362,7 +364,11 @@ def resolve(model: RefDir, op):
                 return None
         return {'a': 'scaled_unit', 'type': tn,
                 'sym': fresh_symbol(model, 'u', n, deco),
-                'parent': parent, 'k': k, 'via': ['rmul', 'mul'][r[4] % 2]
+                # (ctor: Cls(amount, unit) with the amount as instance of the
+                # standard library's decimal.Decimal)
+                'parent': parent, 'k': k,
+                'via': 'ctor' if k['t'] == 'dec' and r[4] % 3 == 2 else
+                ['rmul', 'mul'][r[4] % 2]
                 if k['t'] != 'prefix' else 'rmul', 'expect': 'accept'}
     if kind == 'price_type':
         # Money per something: a derived type that cannot have a reference
@@ -1024,7 +1030,11 @@ def perform(env: Env, act):
             cls = env.types[act['type']]
             parent = env.units[act['parent']]
             k = lib_num(act['k'])
-            q = parent * k if act['via'] == 'mul' else k * parent
+            if act['via'] == 'ctor':
+                import decimal
+                q = cls(decimal.Decimal(act['k']['v']), parent)
+            else:
+                q = parent * k if act['via'] == 'mul' else k * parent
             u = cls.new_unit(lib_sym(act['sym']), 'unit ' + act['sym'], q)
             env.units[u.symbol] = u
             return 'ok', {}
